@@ -9,6 +9,7 @@ pub mod c05;
 pub mod c06a;
 pub mod c07;
 pub mod c08;
+pub mod c08b;
 pub mod c09a;
 pub mod c09b;
 pub mod c12;
@@ -46,7 +47,13 @@ pub fn run(ctx: &Ctx) -> Option<Report> {
         "C04" => Some(c04::run(ctx)),
         "C05" => Some(c05::run(ctx)),
         "C07" => Some(c07::run(ctx)),
-        "C08" => Some(c08::run(ctx)),
+        "C08" => {
+            let mut r = c08::run(ctx);
+            let floor = r.nontrivial_floor;
+            r.merge(c08b::run(ctx));
+            r.nontrivial_floor = floor;
+            Some(r)
+        }
         "C09" => {
             let mut r = c09a::run(ctx);
             let floor = r.nontrivial_floor;
@@ -120,7 +127,13 @@ pub fn replay(ctx: &Ctx, case: &Value) -> Option<Report> {
         "C04" => Some(c04::replay(ctx, case)),
         "C05" => Some(c05::replay(ctx, case)),
         "C07" => Some(c07::replay(ctx, case)),
-        "C08" => Some(c08::replay(ctx, case)),
+        "C08" => {
+            if case.get("half").and_then(|h| h.as_str()) == Some("c08b") {
+                Some(c08b::replay(ctx, case))
+            } else {
+                Some(c08::replay(ctx, case))
+            }
+        }
         "C09" => {
             if case.get("half").and_then(|h| h.as_str()) == Some("c09b") {
                 Some(c09b::replay(ctx, case))
